@@ -68,12 +68,18 @@ def detailsDoc (c : Ctx) (top : Top) (name : Option Str) (path : List Key) (t : 
 def complexDoc (kind : NodeKind) (css : List Str) (body : List HNode) : HNode :=
   el c!"div" [] (c!"complex-value" :: kind.cssName :: css) [] body
 
-def rowDoc (keyCell : List HNode) (valueCell : HNode) : HNode :=
-  el c!"tr" [] [] [] [el c!"td" [] [] [] keyCell, el c!"td" [] [] [] [valueCell]]
+def rowDoc (keyCell valueCell : List HNode) : HNode :=
+  el c!"tr" [] [] [] [el c!"td" [] [] [] keyCell, el c!"td" [] [] [] valueCell]
 
 /-- The highlight / lowlight wrapper: at most ONE `div` around the child. -/
 def wrapDoc (c : Ctx) (path : List Key) (n : HNode) : HNode :=
   if (hlClasses c path).isEmpty then n else el c!"div" [] (hlClasses c path) [] [n]
+
+/-- What `render_child_value` writes for a child, at document level. -/
+def childValueDocs (c : Ctx) (path : List Key) (n : HNode) : List HNode :=
+  if childHidden c path then
+    (if (hlClasses c path).isEmpty then [] else [el c!"div" [] (hlClasses c path) [] []])
+  else [wrapDoc c path n]
 
 mutual
   def renderDoc (c : Ctx) (top : Top) (name : Option Str) (path : List Key) : Tree → HNode
@@ -84,26 +90,27 @@ mutual
     | .node k p kind tip children =>
       detailsDoc c top name path (.node k p kind tip children)
         (complexDoc kind (contentCss c top name (.node k p kind tip children))
-          (if anyChild (childShown c) path children then
-             summaryChildrenDoc c kind.isSeq path children
-             ++ (if anyChild (fun q => childShown c q && childLabel c kind.isSeq q) path children then
-                   [el c!"table" [] [] [] (rowsDoc c kind.isSeq path children)]
-                 else [])
-           else [el c!"span" [] [c!"empty-container"] [] []]))
+          (summaryChildrenDoc c kind.isSeq path children
+           ++ (if anyChild (fun q => childShown c q && childLabel c kind.isSeq q) path children then
+                 [el c!"table" [] [] [] (rowsDoc c kind.isSeq path children)]
+               else [])
+           ++ (if hasChild c kind.isSeq path children then []
+               else [el c!"span" [] [c!"empty-container"] [] []])))
   def summaryChildrenDoc (c : Ctx) (seq : Bool) (path : List Key) : List Tree → List HNode
     | [] => []
     | t :: ts =>
       (if childShown c (path ++ [t.key]) && !childLabel c seq (path ++ [t.key]) then
-         [wrapDoc c (path ++ [t.key])
-           (renderDoc (childCtx c) {} (some t.key.summaryName) (path ++ [t.key]) t)]
+         childValueDocs c (path ++ [t.key])
+           (renderDoc (childCtx c) {} (some t.key.summaryName) (path ++ [t.key]) t)
        else [])
       ++ summaryChildrenDoc c seq path ts
   def rowsDoc (c : Ctx) (seq : Bool) (path : List Key) : List Tree → List HNode
     | [] => []
     | t :: ts =>
-      (if childShown c (path ++ [t.key]) && childLabel c seq (path ++ [t.key]) then
+      (if childShown c (path ++ [t.key]) && childLabel c seq (path ++ [t.key])
+            && childVisible c (path ++ [t.key]) then
          [rowDoc (objectKeyDoc (childCtx c) t)
-           (wrapDoc c (path ++ [t.key]) (renderDoc (childCtx c) {} none (path ++ [t.key]) t))]
+           (childValueDocs c (path ++ [t.key]) (renderDoc (childCtx c) {} none (path ++ [t.key]) t))]
        else [])
       ++ rowsDoc c seq path ts
 end
@@ -117,8 +124,8 @@ theorem complexEl_print (kind : NodeKind) (css : List Str) (body : Str) (doc : L
   apply element_print
   simp [concatStrs, h]
 
-theorem rowEl_print (k v : Str) (kd : List HNode) (vd : HNode) (hk : k = printNodes kd)
-    (hv : v = printNode vd) : rowEl k v = printNode (rowDoc kd vd) := by
+theorem rowEl_print (k v : Str) (kd vd : List HNode) (hk : k = printNodes kd)
+    (hv : v = printNodes vd) : rowEl k v = printNode (rowDoc kd vd) := by
   unfold rowEl rowDoc
   apply element_print
   simp [concatStrs, printNodes, printNode, el, elementAttrs, openTag, closeTag, attrsStr, tdOpen, tdClose,
@@ -131,6 +138,18 @@ theorem wrapHL_print (c : Ctx) (path : List Key) (html : Str) (n : HNode) (h : h
   · exact h
   · apply element_print
     simp [concatStrs, printNodes, h]
+
+theorem childValue_print (c : Ctx) (path : List Key) (html : Str) (n : HNode) (h : html = printNode n) :
+    childValue c path html = printNodes (childValueDocs c path n) := by
+  unfold childValue childValueDocs
+  split
+  · unfold wrapHL
+    split
+    · rfl
+    · simp only [printNodes, List.append_nil]
+      exact element_print _ _ _ _ _ _ (by simp [concatStrs, printNodes])
+  · simp only [printNodes, List.append_nil]
+    exact wrapHL_print c path html n h
 
 section
 variable (st : Sites) (hst : st.allEscaped = true)
@@ -221,16 +240,18 @@ mutual
       simp only [render, renderDoc]
       apply detailsEl_print st hst
       apply complexEl_print
-      split
-      · rw [printNodes_append, summaryChildren_print c kind.isSeq path children]
-        congr 1
-        split
+      rw [printNodes_append, printNodes_append, summaryChildren_print c kind.isSeq path children]
+      congr 1
+      congr 1
+      · split
         · have := rows_print c kind.isSeq path children
           simp [printNodes, printNode, el, elementAttrs, openTag, closeTag, attrsStr, this, optAttr, joinSp,
             dedup, styleStr, propAttrs]
         · rfl
-      · simp only [emptySpan, printNodes, List.append_nil]
-        exact element_print _ _ _ _ _ _ rfl
+      · split
+        · rfl
+        · simp only [emptySpan, printNodes, List.append_nil]
+          exact element_print _ _ _ _ _ _ rfl
   theorem summaryChildren_print (c : Ctx) (seq : Bool) (path : List Key) (ts : List Tree) :
       summaryChildren st c seq path ts = printNodes (summaryChildrenDoc c seq path ts) := by
     cases ts with
@@ -240,8 +261,7 @@ mutual
       rw [summaryChildren_print c seq path ts]
       congr 1
       split
-      · simp only [printNodes, List.append_nil]
-        exact wrapHL_print c _ _ _ (render_print (childCtx c) {} _ _ t)
+      · exact childValue_print c _ _ _ (render_print (childCtx c) {} _ _ t)
       · rfl
   theorem rows_print (c : Ctx) (seq : Bool) (path : List Key) (ts : List Tree) :
       rows st c seq path ts = printNodes (rowsDoc c seq path ts) := by
@@ -254,7 +274,7 @@ mutual
       split
       · simp only [printNodes, List.append_nil]
         exact rowEl_print _ _ _ _ (objectKeyEl_print st hst _ _)
-          (wrapHL_print c _ _ _ (render_print (childCtx c) {} none _ t))
+          (childValue_print c _ _ _ (render_print (childCtx c) {} none _ t))
       · rfl
 end
 
@@ -720,15 +740,15 @@ theorem ok_complexDoc (kind : NodeKind) (css : List Str) (body : List HNode) (hk
   exact okNode_el _ _ _ _ _ (by decide) (by decide) (by decide)
     (mem_cons_css (mem_cons_css hcss (nodeKind_css_safe kind hk)) (by decide)) rfl hb
 
-theorem ok_rowDoc (kc : List HNode) (vc : HNode) (hk : okNodes kc = true) (hv : okNode vc = true) :
+theorem ok_rowDoc (kc vc : List HNode) (hk : okNodes kc = true) (hv : okNodes vc = true) :
     okNode (rowDoc kc vc) = true := by
   unfold rowDoc
   refine okNode_el _ _ _ _ _ (by decide) (by decide) (by decide) no_css rfl ?_
   rw [okNodes_cons_el, okNodes_cons_el]
   have h1 : okNode (el c!"td" [] [] [] kc) = true :=
     okNode_el _ _ _ _ _ (by decide) (by decide) (by decide) no_css rfl hk
-  have h2 : okNode (el c!"td" [] [] [] [vc]) = true :=
-    okNode_el _ _ _ _ _ (by decide) (by decide) (by decide) no_css rfl (okNodes_singleton vc hv)
+  have h2 : okNode (el c!"td" [] [] [] vc) = true :=
+    okNode_el _ _ _ _ _ (by decide) (by decide) (by decide) no_css rfl hv
   simp [h1, h2, okNodes]
 
 theorem hlClasses_safe (c : Ctx) (path : List Key) : ∀ s ∈ hlClasses c path, safeVal s = true := by
@@ -783,6 +803,18 @@ theorem noText_append (a b : List HNode) (ha : noText a = true) (hb : noText b =
     simp only [noText, Bool.and_eq_true] at ha
     simp only [List.cons_append, noText, ha.1, ih ha.2, Bool.and_self]
 
+theorem ok_childValueDocs (c : Ctx) (path : List Key) (n : HNode) (hn : okNode n = true)
+    (hne : isText n = false) :
+    okNodes (childValueDocs c path n) = true ∧ noText (childValueDocs c path n) = true := by
+  unfold childValueDocs
+  split
+  · split
+    · exact ⟨rfl, rfl⟩
+    · exact ⟨okNodes_singleton _ (okNode_el _ _ _ _ _ (by decide) (by decide) (by decide)
+        (hlClasses_safe c path) rfl rfl), rfl⟩
+  · have hw := ok_wrapDoc c path n hn hne
+    exact ⟨okNodes_singleton _ hw.1, by simp [noText, hw.2]⟩
+
 mutual
   theorem ok_renderDoc (c : Ctx) (top : Top) (name : Option Str) (path : List Key) (t : Tree)
       (ht : safeTree t = true) (htop : safeTop top = true) (hc : safeCtx c = true) :
@@ -798,15 +830,22 @@ mutual
       simp only [safeTree, Bool.and_eq_true] at ht'
       refine ok_detailsDoc c top name path _ _ ht htop
         (ok_complexDoc kind _ _ ht'.1 (contentCss_safe c top name _ htop) ?_) rfl
-      split
-      · have hs := ok_summaryChildrenDoc c kind.isSeq path children ht'.2 hc
-        refine okNodes_append _ _ hs.1 ?_ hs.2
+      have hs := ok_summaryChildrenDoc c kind.isSeq path children ht'.2 hc
+      have htab : okNodes (if anyChild (fun q => childShown c q && childLabel c kind.isSeq q) path children
+          then [el c!"table" [] [] [] (rowsDoc c kind.isSeq path children)] else []) = true
+          ∧ noText (if anyChild (fun q => childShown c q && childLabel c kind.isSeq q) path children
+          then [el c!"table" [] [] [] (rowsDoc c kind.isSeq path children)] else []) = true := by
         split
-        · exact okNodes_singleton _ (okNode_el _ _ _ _ _ (by decide) (by decide) (by decide)
-            no_css rfl (ok_rowsDoc c kind.isSeq path children ht'.2 hc).1)
+        · exact ⟨okNodes_singleton _ (okNode_el c!"table" [] [] [] _ (by decide) (by decide) (by decide)
+            no_css rfl (ok_rowsDoc c kind.isSeq path children ht'.2 hc).1), rfl⟩
+        · exact ⟨rfl, rfl⟩
+      have hemp : okNodes (if hasChild c kind.isSeq path children then []
+          else [el c!"span" [] [c!"empty-container"] [] []]) = true := by
+        split
         · rfl
-      · exact okNodes_singleton _ (okNode_el _ _ _ _ _ (by decide) (by decide) (by decide)
-          (mem_cons_css no_css (by decide)) rfl rfl)
+        · exact okNodes_singleton _ (okNode_el c!"span" [] [c!"empty-container"] [] [] (by decide) (by decide)
+            (by decide) (mem_cons_css no_css (by decide)) rfl rfl)
+      exact okNodes_append _ _ (okNodes_append _ _ hs.1 htab.1 hs.2) hemp (noText_append _ _ hs.2 htab.2)
   theorem ok_summaryChildrenDoc (c : Ctx) (seq : Bool) (path : List Key) (ts : List Tree)
       (hts : safeTrees ts = true) (hc : safeCtx c = true) :
       okNodes (summaryChildrenDoc c seq path ts) = true ∧ noText (summaryChildrenDoc c seq path ts) = true := by
@@ -818,11 +857,8 @@ mutual
       have hr := ok_summaryChildrenDoc c seq path ts hts.2 hc
       split
       · have h := ok_renderDoc (childCtx c) {} (some t.key.summaryName) (path ++ [t.key]) t hts.1 rfl hc
-        have hw := ok_wrapDoc c (path ++ [t.key]) _ h.1 h.2
-        have h1 : noText [wrapDoc c (path ++ [t.key])
-            (renderDoc (childCtx c) {} (some t.key.summaryName) (path ++ [t.key]) t)] = true := by
-          simp [noText, hw.2]
-        exact ⟨okNodes_append _ _ (okNodes_singleton _ hw.1) hr.1 h1, noText_append _ _ h1 hr.2⟩
+        have hv := ok_childValueDocs c (path ++ [t.key]) _ h.1 h.2
+        exact ⟨okNodes_append _ _ hv.1 hr.1 hv.2, noText_append _ _ hv.2 hr.2⟩
       · simpa using hr
   theorem ok_rowsDoc (c : Ctx) (seq : Bool) (path : List Key) (ts : List Tree)
       (hts : safeTrees ts = true) (hc : safeCtx c = true) :
@@ -835,10 +871,10 @@ mutual
       have hr := ok_rowsDoc c seq path ts hts.2 hc
       split
       · have h := ok_renderDoc (childCtx c) {} none (path ++ [t.key]) t hts.1 rfl hc
-        have hw := ok_wrapDoc c (path ++ [t.key]) _ h.1 h.2
-        have hrow := ok_rowDoc (objectKeyDoc (childCtx c) t) _ (ok_objectKeyDoc (childCtx c) t hc) hw.1
+        have hv := ok_childValueDocs c (path ++ [t.key]) _ h.1 h.2
+        have hrow := ok_rowDoc (objectKeyDoc (childCtx c) t) _ (ok_objectKeyDoc (childCtx c) t hc) hv.1
         have h1 : noText [rowDoc (objectKeyDoc (childCtx c) t)
-            (wrapDoc c (path ++ [t.key]) (renderDoc (childCtx c) {} none (path ++ [t.key]) t))] = true := rfl
+            (childValueDocs c (path ++ [t.key]) (renderDoc (childCtx c) {} none (path ++ [t.key]) t))] = true := rfl
         exact ⟨okNodes_append _ _ (okNodes_singleton _ hrow) hr.1 h1, noText_append _ _ h1 hr.2⟩
       · simpa using hr
 end
@@ -888,8 +924,8 @@ theorem leaf_mem_simpleValueDoc (c : Ctx) (css : List Str) (t : Tree) (h : leafT
   rw [texts_el]
   exact mem_texts_txt _ (escape_ne_nil _ h)
 
-theorem texts_rowDoc (kc : List HNode) (vc : HNode) :
-    textsOf (rowDoc kc vc) = textsOfAll kc ++ textsOf vc := by
+theorem texts_rowDoc (kc vc : List HNode) :
+    textsOf (rowDoc kc vc) = textsOfAll kc ++ textsOfAll vc := by
   simp [rowDoc, texts_el, textsOfAll]
 
 theorem mem_wrapDoc (c : Ctx) (path : List Key) (n : HNode) (x : Str) (h : x ∈ textsOf n) :
@@ -899,27 +935,22 @@ theorem mem_wrapDoc (c : Ctx) (path : List Key) (n : HNode) (x : Str) (h : x ∈
   · exact h
   · simpa [texts_el, textsOfAll] using h
 
+theorem mem_childValueDocs (c : Ctx) (path : List Key) (n : HNode) (x : Str)
+    (hh : childHidden c path = false) (h : x ∈ textsOf n) :
+    x ∈ textsOfAll (childValueDocs c path n) := by
+  unfold childValueDocs
+  simp only [hh, Bool.false_eq_true, if_false, textsOfAll, List.append_nil]
+  exact mem_wrapDoc c path n x h
+
+theorem childVisible_of_not_hidden (c : Ctx) (path : List Key) (hh : childHidden c path = false) :
+    childVisible c path = true := by
+  simp [childVisible, hh]
+
 theorem key_mem_objectKeyDoc (c : Ctx) (t : Tree) (h : t.key.text ≠ []) :
     escape t.key.text ∈ textsOfAll (objectKeyDoc c t) := by
   unfold objectKeyDoc
   simp only [textsOfAll, texts_el, List.mem_append]
   exact Or.inl (mem_texts_txt _ (escape_ne_nil _ h))
-
-theorem leafTextsOfAll_none (c : Ctx) (path : List Key) (ts : List Tree)
-    (h : anyChild (childShown c) path ts = false) : leafTextsOfAll c path ts = [] := by
-  induction ts with
-  | nil => rfl
-  | cons t ts ih =>
-    simp only [anyChild, Bool.or_eq_false_iff] at h
-    simp [leafTextsOfAll, h.1, ih h.2]
-
-theorem keyTextsOfAll_none (b : Bool) (c : Ctx) (seq : Bool) (path : List Key) (ts : List Tree)
-    (h : anyChild (childShown c) path ts = false) : keyTextsOfAll b c seq path ts = [] := by
-  induction ts with
-  | nil => rfl
-  | cons t ts ih =>
-    simp only [anyChild, Bool.or_eq_false_iff] at h
-    simp [keyTextsOfAll, h.1, ih h.2]
 
 theorem rowsDoc_none (c : Ctx) (seq : Bool) (path : List Key) (ts : List Tree)
     (h : anyChild (fun q => childShown c q && childLabel c seq q) path ts = false) :
@@ -929,6 +960,25 @@ theorem rowsDoc_none (c : Ctx) (seq : Bool) (path : List Key) (ts : List Tree)
   | cons t ts ih =>
     simp only [anyChild, Bool.or_eq_false_iff] at h
     simp [rowsDoc, h.1, ih h.2]
+
+/-- Texts of the body of a container: those of the summary part or of the rows. -/
+theorem mem_body (c : Ctx) (seq : Bool) (path : List Key) (children : List Tree) (x : Str)
+    (h : x ∈ textsOfAll (summaryChildrenDoc c seq path children)
+      ∨ x ∈ textsOfAll (rowsDoc c seq path children)) :
+    x ∈ textsOfAll (summaryChildrenDoc c seq path children
+      ++ (if anyChild (fun q => childShown c q && childLabel c seq q) path children then
+            [el c!"table" [] [] [] (rowsDoc c seq path children)] else [])
+      ++ (if hasChild c seq path children then [] else [el c!"span" [] [c!"empty-container"] [] []])) := by
+  simp only [textsOfAll_append, List.mem_append]
+  rcases h with h | h
+  · exact Or.inl (Or.inl h)
+  · left; right
+    have hl : anyChild (fun q => childShown c q && childLabel c seq q) path children = true := by
+      cases hh : anyChild (fun q => childShown c q && childLabel c seq q) path children with
+      | true => rfl
+      | false => rw [rowsDoc_none c seq path children hh] at h; simp [textsOfAll] at h
+    simp only [hl, if_true, textsOfAll, texts_el, List.append_nil]
+    exact h
 
 mutual
   theorem leafTexts_mem (c : Ctx) (top : Top) (name : Option Str) (path : List Key) (t : Tree) :
@@ -947,20 +997,7 @@ mutual
       apply mem_detailsDoc_of_content
       unfold complexDoc
       rw [texts_el]
-      have hany : anyChild (childShown c) path children = true := by
-        cases h : anyChild (childShown c) path children with
-        | true => rfl
-        | false => exact absurd hx (by rw [leafTextsOfAll_none c path children h]; simp)
-      simp only [hany, if_true, textsOfAll_append, List.mem_append]
-      rcases leafTexts_mem_children c kind.isSeq path children x hx hne with h | h
-      · exact Or.inl h
-      · right
-        have hl : anyChild (fun q => childShown c q && childLabel c kind.isSeq q) path children = true := by
-          cases hh : anyChild (fun q => childShown c q && childLabel c kind.isSeq q) path children with
-          | true => rfl
-          | false => rw [rowsDoc_none c kind.isSeq path children hh] at h; simp [textsOfAll] at h
-        simp only [hl, if_true, textsOfAll, texts_el, List.append_nil]
-        exact h
+      exact mem_body c kind.isSeq path children _ (leafTexts_mem_children c kind.isSeq path children x hx hne)
   theorem leafTexts_mem_children (c : Ctx) (seq : Bool) (path : List Key) (ts : List Tree) :
       ∀ x ∈ leafTextsOfAll c path ts, x ≠ [] →
         escape x ∈ textsOfAll (summaryChildrenDoc c seq path ts)
@@ -972,19 +1009,21 @@ mutual
       simp only [leafTextsOfAll, List.mem_append] at hx
       simp only [summaryChildrenDoc, rowsDoc, textsOfAll_append, List.mem_append]
       rcases hx with hx | hx
-      · by_cases hs : childShown c (path ++ [t.key]) = true
+      · by_cases hs : (childShown c (path ++ [t.key]) && !childHidden c (path ++ [t.key])) = true
         · simp only [hs, if_true] at hx
+          simp only [Bool.and_eq_true, Bool.not_eq_true'] at hs
+          have hvis := childVisible_of_not_hidden c _ hs.2
           by_cases hl : childLabel c seq (path ++ [t.key]) = true
           · right; left
-            simp only [hs, hl, Bool.and_self, if_true, textsOfAll, texts_rowDoc, List.append_nil,
+            simp only [hs.1, hl, hvis, Bool.and_self, if_true, textsOfAll, texts_rowDoc, List.append_nil,
               List.mem_append]
-            exact Or.inr (mem_wrapDoc _ _ _ _ (leafTexts_mem (childCtx c) {} _ _ t x hx hne))
+            exact Or.inr (mem_childValueDocs _ _ _ _ hs.2 (leafTexts_mem (childCtx c) {} _ _ t x hx hne))
           · left; left
             have hl' : childLabel c seq (path ++ [t.key]) = false := by simpa using hl
-            simp only [hs, hl', Bool.not_false, Bool.and_self, if_true, textsOfAll, List.append_nil]
-            exact mem_wrapDoc _ _ _ _ (leafTexts_mem (childCtx c) {} _ _ t x hx hne)
-        · have hs' : childShown c (path ++ [t.key]) = false := by simpa using hs
-          simp [hs'] at hx
+            simp only [hs.1, hl', Bool.not_false, Bool.and_self, if_true]
+            exact mem_childValueDocs _ _ _ _ hs.2 (leafTexts_mem (childCtx c) {} _ _ t x hx hne)
+        · simp only [hs, Bool.false_eq_true, if_false] at hx
+          cases hx
       · rcases leafTexts_mem_children c seq path ts x hx hne with h | h
         · exact Or.inl (Or.inr h)
         · exact Or.inr (Or.inr h)
@@ -1002,20 +1041,7 @@ mutual
       apply mem_detailsDoc_of_content
       unfold complexDoc
       rw [texts_el]
-      have hany : anyChild (childShown c) path children = true := by
-        cases h : anyChild (childShown c) path children with
-        | true => rfl
-        | false => exact absurd hx (by rw [keyTextsOfAll_none true c kind.isSeq path children h]; simp)
-      simp only [hany, if_true, textsOfAll_append, List.mem_append]
-      rcases keyTexts_mem_children c kind.isSeq path children x hx hne with h | h
-      · exact Or.inl h
-      · right
-        have hl : anyChild (fun q => childShown c q && childLabel c kind.isSeq q) path children = true := by
-          cases hh : anyChild (fun q => childShown c q && childLabel c kind.isSeq q) path children with
-          | true => rfl
-          | false => rw [rowsDoc_none c kind.isSeq path children hh] at h; simp [textsOfAll] at h
-        simp only [hl, if_true, textsOfAll, texts_el, List.append_nil]
-        exact h
+      exact mem_body c kind.isSeq path children _ (keyTexts_mem_children c kind.isSeq path children x hx hne)
   theorem keyTexts_mem_children (c : Ctx) (seq : Bool) (path : List Key) (ts : List Tree) :
       ∀ x ∈ keyTextsOfAll true c seq path ts, x ≠ [] →
         escape x ∈ textsOfAll (summaryChildrenDoc c seq path ts)
@@ -1027,22 +1053,24 @@ mutual
       simp only [keyTextsOfAll, List.mem_append] at hx
       simp only [summaryChildrenDoc, rowsDoc, textsOfAll_append, List.mem_append]
       rcases hx with hx | hx
-      · by_cases hs : childShown c (path ++ [t.key]) = true
+      · by_cases hs : (childShown c (path ++ [t.key]) && !childHidden c (path ++ [t.key])) = true
         · simp only [hs, if_true, List.mem_append] at hx
+          simp only [Bool.and_eq_true, Bool.not_eq_true'] at hs
+          have hvis := childVisible_of_not_hidden c _ hs.2
           by_cases hl : childLabel c seq (path ++ [t.key]) = true
           · right; left
-            simp only [hs, hl, Bool.and_self, if_true, textsOfAll, texts_rowDoc, List.append_nil,
+            simp only [hs.1, hl, hvis, Bool.and_self, if_true, textsOfAll, texts_rowDoc, List.append_nil,
               List.mem_append]
             simp only [hl, if_true, List.mem_singleton] at hx
             rcases hx with hx | hx
             · subst hx
               exact Or.inl (key_mem_objectKeyDoc _ t hne)
-            · exact Or.inr (mem_wrapDoc _ _ _ _ (keyTexts_mem (childCtx c) {} _ _ t x hx hne))
+            · exact Or.inr (mem_childValueDocs _ _ _ _ hs.2 (keyTexts_mem (childCtx c) {} _ _ t x hx hne))
           · left; left
             have hl' : childLabel c seq (path ++ [t.key]) = false := by simpa using hl
-            simp only [hs, hl', Bool.not_false, Bool.and_self, if_true, textsOfAll, List.append_nil]
+            simp only [hs.1, hl', Bool.not_false, Bool.and_self, if_true]
             simp only [hl', Bool.false_eq_true, if_false, Bool.not_true, Bool.false_or] at hx
-            apply mem_wrapDoc
+            apply mem_childValueDocs _ _ _ _ hs.2
             rcases hx with hx | hx
             · split at hx
               · rename_i hns
@@ -1059,8 +1087,8 @@ mutual
                   exact name_mem_detailsDoc _ _ _ _ _ _ hs' hne
               · cases hx
             · exact keyTexts_mem (childCtx c) {} _ _ t x hx hne
-        · have hs' : childShown c (path ++ [t.key]) = false := by simpa using hs
-          simp [hs'] at hx
+        · simp only [hs, Bool.false_eq_true, if_false] at hx
+          cases hx
       · rcases keyTexts_mem_children c seq path ts x hx hne with h | h
         · exact Or.inl (Or.inr h)
         · exact Or.inr (Or.inr h)
